@@ -35,6 +35,36 @@ RunB(s, P, ks, i, acc) ==
   ELSE RunB(StepB(s, P, ks[i]), P, ks, i + 1, Append(acc, Color(s, P, ks[i])))
 Colours(NK, P, ks) == RunB(InitB(NK), P, ks, 1, <<>>)
 
+\* ---- lines that git coloured itself (blame.coloring): delta keeps git's colour and does not touch the memo ----
+\* gs[i] = TRUE: line i arrived in a colour of git's.  get_color is then not consulted, the memo is not updated, but the
+\* line's key becomes the previous key.  For the line after it the previous key may have no colour in the memo: the
+\* pinned code has two arms it calls impossible there (result 0 = delta_unreachable); Fixed = TRUE is the repaired code.
+ColorG(s, P, k, Fixed) ==
+  LET kc == s.memo[k]
+      pc == IF s.prev = 0 THEN 0 ELSE s.memo[s.prev]
+      rep == (s.prev = k)
+  IN IF kc # 0 /\ pc # 0 /\ rep THEN kc
+     ELSE IF kc = 0 /\ rep THEN (IF Fixed THEN NextColor(s, P, pc) ELSE 0)          \* "is_repeat cannot be true when key has no color"
+     ELSE IF kc = 0 /\ pc # 0 THEN NextColor(s, P, pc)
+     ELSE IF kc = 0 /\ pc = 0 THEN NextColor(s, P, 0)
+     ELSE IF pc = 0 THEN (IF Fixed THEN kc ELSE 0)                                  \* "There must be a previous key if the key has a color"
+     ELSE IF kc # pc THEN kc
+     ELSE NextColor(s, P, kc)
+StepG(s, P, k, g, Fixed) == IF g THEN [s EXCEPT !.prev = k]
+                            ELSE LET c == ColorG(s, P, k, Fixed) IN [memo |-> [s.memo EXCEPT ![k] = c], prev |-> k]
+RECURSIVE RunG(_, _, _, _, _, _, _)
+\* colours of the lines (git-coloured lines: 100 + key, a colour of git's choosing; 0 = the code gave up)
+RunG(s, P, ks, gs, i, acc, Fixed) ==
+  IF i > Len(ks) THEN acc
+  ELSE RunG(StepG(s, P, ks[i], gs[i], Fixed), P, ks, gs, i + 1,
+            Append(acc, IF gs[i] THEN 100 + ks[i] ELSE ColorG(s, P, ks[i], Fixed)), Fixed)
+ColoursG(NK, P, ks, gs, Fixed) == RunG(InitB(NK), P, ks, gs, 1, <<>>, Fixed)
+\* every line delta colours gets a palette colour (the handler never gives up)
+TotalG(P, ks, gs, cs) == \A i \in DOMAIN ks : ~gs[i] => cs[i] \in 1..P
+\* the laws, between neighbouring lines that delta coloured itself
+LawsG(ks, gs, cs) ==
+  /\ \A i \in 2..Len(ks) : (~gs[i] /\ ~gs[i - 1]) => ((ks[i] = ks[i - 1]) <=> (cs[i] = cs[i - 1]))
+
 \* ---------------- Obs ----------------
 \* ks keys, cs colours (any values comparable for equality), both of the same length
 SameKeySameColour(ks, cs) == \A i \in 2..Len(ks) : ks[i] = ks[i - 1] => cs[i] = cs[i - 1]
